@@ -63,7 +63,7 @@ def run_history(formula, history, data, same, make_ctx, lost_rows=None):
     U = ModelSpec(formula=formula)
     S = None
     f_repr = repr(list(F))
-    frames_before = {k: (df.copy(), {n: list(v) for n, v in num.items()}) for k, (df, num) in data.items()}
+    frames_before = {k: (df.copy(), {n: _snap(v) for n, v in num.items()}) for k, (df, num) in data.items()}
     obtained = []  # (spec, fingerprint at the time it was obtained)
 
     def fresh(op):
@@ -132,6 +132,10 @@ def run_history(formula, history, data, same, make_ctx, lost_rows=None):
             if not dfk.equals(df0):
                 problems.append(("data-mutated", f"{where}: data frame {k} changed"))
             for nm, v0 in num0.items():
+                if v0 and isinstance(v0[0], tuple) and v0[0][:1] == ("object",):
+                    if _snap(numk[nm]) != v0:
+                        problems.append(("data-mutated", f"{where}: the object {nm} of the context of data {k} changed: {v0[0][1]} -> {_snap(numk[nm])[0][1]}"))
+                    continue
                 if len(v0) != len(numk[nm]) or any(x is not y and not _same_obj(x, y) for x, y in zip(v0, numk[nm])):
                     problems.append(("data-mutated", f"{where}: column {nm} of data {k} changed"))
         for sp, fp, what in obtained[:-1]:
@@ -156,7 +160,17 @@ CONTEXT_ARRAY_FORMULAS = {
     "bs(a, df=4) + cr(b, df=3)": 0, "a + b": 0,
     # a Python LIST held in the context and handed to a transform (explicit knots): it is the caller's
     "bs(a, knots=K) + b": 0, "cr(b, knots=K2):A + bs(a, knots=K, degree=1)": 0,
+    # ONE contrasts object held by the caller and used for several factors / data sets
+    "C(A, T0) + C(B, T0) + a": 0, "C(B, T0):b + C(A, S0)": 0, "C(A, T0) + b": 0,
 }
+
+
+def _snap(v):
+    """A comparable snapshot of a caller-owned context value: the elements of an array / list, or the attributes of an object."""
+    try:
+        return list(v)
+    except TypeError:
+        return [("object", repr(v), repr(sorted((k, repr(x)) for k, x in getattr(v, "__dict__", {}).items())))]
 
 
 def context_array_problems(formula: str, history):
@@ -172,6 +186,12 @@ def context_array_problems(formula: str, history):
         for k in arrays:
             arrays[k]["K"] = [3.0, 6.0]
             arrays[k]["K2"] = [3.5, 5.0]
+    if "T0" in formula:
+        from formulaic.transforms.contrasts import SumContrasts, TreatmentContrasts
+
+        for k in arrays:
+            arrays[k]["T0"] = TreatmentContrasts()
+            arrays[k]["S0"] = SumContrasts()
     data = {1: (f1, arrays[1]), 2: (f2, arrays[2])}
 
     def same(u, v):
